@@ -242,9 +242,9 @@ def alphabet(tier: str = "quick") -> list:
         ints += [3, -2, 255, 2 ** 53 - 1, 2 ** 53 + 2, 2 ** 53 + 3, -(2 ** 53), -(2 ** 53 + 1),
                  2 ** 63, 2 ** 64 + 1, 2 ** 1024 - 1, 2 ** 1024, 10 ** 400 + 1]
     vs += _ints(ints, sharp=(0, 1, 2 ** 53 + 1, 10 ** 400))
-    floats = [0.0, -0.0, 1.5, 1e308, 5e-324, 2.0 ** 53, float("inf"), float("-inf"), nan]
+    floats = [0.0, -0.0, 1.5, 0.1, 1e308, 5e-324, 2.0 ** 53, float("inf"), float("-inf"), nan]
     if thorough:
-        floats[5:5] = [1.0, -1.5, 0.1, -1e308, -5e-324, 2.0 ** 53 + 2.0, -(2.0 ** 53),
+        floats[6:6] = [1.0, -1.5, -1e308, -5e-324, 2.0 ** 53 + 2.0, -(2.0 ** 53),
                        1.7976931348623157e308, 2.2250738585072014e-308]
     vs += _floats(floats, sharp=("0.0", "-0.0", "inf", "nan"))
     vs += [V("bool:True", "bool", "num", const(True), sharp=True),
@@ -257,7 +257,12 @@ def alphabet(tier: str = "quick") -> list:
                V("complex:inf", "complex:inf", "num", lambda: complex(float("inf"), 0))]
     vs += [V("Decimal:1.5", "decimal", "num", lambda: Decimal("1.5")),
            V("Decimal:NaN", "decimal:nan", "num", lambda: Decimal("NaN"), sharp=True),
-           V("Fraction:1/3", "fraction", "num", lambda: Fraction(1, 3))]
+           V("Fraction:1/3", "fraction", "num", lambda: Fraction(1, 3)),
+           # unequal to a float / Fraction above although float() maps both to the same double
+           # (and Decimal - float / Decimal - Fraction raise TypeError: the conversion fallback)
+           V("Decimal:0.1", "decimal~float", "num", lambda: Decimal("0.1")),
+           V("Decimal:2^53+1", "decimal~float", "num", lambda: Decimal(2 ** 53 + 1)),
+           V("Decimal:1/3", "decimal~float", "num", lambda: Decimal(1) / Decimal(3))]
     if thorough:
         vs += [V("Decimal:0", "decimal", "num", lambda: Decimal("0")),
                V("Decimal:Infinity", "decimal:inf", "num", lambda: Decimal("Infinity")),
